@@ -45,7 +45,7 @@ def parse_model(line, dag):
         else:
             parts = o.split(" ")
             memo = parts[1:]
-            res = [int(parts[0]), {lab: memo[node] for lab, node in dag["obs"]}]
+            res = [int(parts[0]), {lab: (memo[node] if node is not None else cv) for lab, node, cv in dag["obs"]}]
         if lg in out:
             raise ValueError("model produced the same call log twice: " + lg)
         out[lg] = (p, res)
@@ -65,7 +65,7 @@ def aggregate(runs):
     return d
 
 
-def shrink(prog, fails, budget=25):
+def shrink(prog, fails, budget=10):
     """greedy statement dropping while the failure persists"""
     cur = prog
     changed = True
@@ -185,7 +185,7 @@ def main():
         c.finish()
     exe = common.build_ocaml(PID)
     quick = c.tier == "quick"
-    nprog = int(os.environ.get("VERIF_C01_N", 90 if quick else 2500))
+    nprog = int(os.environ.get("VERIF_C01_N", 72 if quick else 2500))
     shrunk_kinds = set()
     rng = c.rng
     jobs = []
@@ -200,7 +200,7 @@ def main():
             maxits = [1] if i % 3 else [1, 2]
         else:
             maxits = [1, 2, 3] if i % 4 == 0 else [1, 2]
-        jobs.append(make_job(prog, f"prog{i}", mode2D=(i % 2 == 0), maxits=maxits, max_paths=6000 if quick else 20000))
+        jobs.append(make_job(prog, f"prog{i}", mode2D=(i % 2 == 0), maxits=maxits, max_paths=4000 if quick else 20000))
     if c.replay:
         body = json.load(open(c.replay))
         case = body.get("case", {})
